@@ -118,7 +118,7 @@ def enumerate_cases(tier, seed):
     # family e: histories on one set of objects: run, edit (argument / enabled flag, through four entry points), run ...
     edit_ops = [["arg_attr", 0], ["arg_attr", 1], ["arg_item", 1], ["arg_set", 0], ["arg_set", 1], ["toggle_attr", 0],
                 ["toggle_set", 1], ["replace", 0], ["replace_toggle", 1], ["nested_set", 0], ["copy_nested", 0],
-                ["copy_list", 1]]
+                ["copy_list", 1], ["arg_set_sametype", 0], ["arg_set_sametype", 1]]
     depth = 3 if thorough else 2
     for k in range(1, depth + 1):
         for seq in itertools.product(edit_ops, repeat=k):
@@ -270,6 +270,12 @@ def run_history(case):
         elif op == "arg_set":
             p.set(f"pipeline.{g}.{n}.arguments.a", val)
             cfg[n]["args"]["a"] = val
+        elif op == "arg_set_sametype":
+            # a value that compares equal to the current one but is of another type (2 -> 2.0, 2.0 -> 2)
+            cur = cfg[n]["args"]["a"]
+            new = float(cur) if isinstance(cur, int) else int(cur)
+            p.set(f"pipeline.{g}.{n}.arguments.a", new)
+            cfg[n]["args"]["a"] = new
         elif op == "toggle_attr":
             mf.enabled = not mf.enabled
             cfg[n]["enabled"] = not cfg[n]["enabled"]
